@@ -106,6 +106,8 @@ def run(prop, tier, replay=None):
     steps = []
     for r in records:
         ev = r["obs"].pop("events", [])
+        if r["sc"].get("dirarg"):
+            continue        # the order among the documents of a directory is unspecified: no step-level comparison
         steps.append({"ev": "Scenario", "sc": r["sc"], "id": r["id"]})
         for e in ev:
             steps.append({k2: e[k2] for k2 in e if k2 not in ("seq", "pid", "path", "format")})
